@@ -50,11 +50,27 @@ Lemma handled_render : forall s r methods, handled s r methods ->
 Proof. intros s r methods (H1 & _ & _). rewrite (plain_respond _ _ _ H1). reflexivity. Qed.
 
 (* a returned message is sent, with the default success code / the request's No-Response filled in if it had none *)
+Lemma default_code_is_response : forall c, is_response (default_code c) = true.
+Proof. intros c. unfold default_code. destruct ((c =? GET) || (c =? FETCH)); [reflexivity|]. destruct (c =? DELETE); reflexivity. Qed.
+(* the code the message leaves Resource.render with *)
+Definition final_code (r : request) (m : msg) : Z := match m_code m with Some c => c | None => default_code (r_code r) end.
 Lemma returned_message : forall s r methods m, handled s r methods -> r_outcome r = Return (VMsg m) ->
+  is_response (final_code r m) = true ->
   final_message (Some s) r = Some (fill_defaults r m).
 Proof.
-  intros s r methods m H Ho. unfold final_message. rewrite (handled_render _ _ _ H).
-  destruct H as (_ & H2 & H3). unfold render. rewrite H2, H3, Ho. reflexivity.
+  intros s r methods m H Ho Hc. unfold final_message. rewrite (handled_render _ _ _ H).
+  destruct H as (_ & H2 & H3). unfold render. rewrite H2, H3, Ho. unfold checked. cbn [fill_defaults m_code negb].
+  unfold final_code in Hc. rewrite Hc. reflexivity.
+Qed.
+(* ... and a returned message whose code is not a response code (EMPTY, a request code, 6.xx/7.xx) is not sent:
+   Resource.render raises, the request is answered with the bare 5.00 (a9de195) *)
+Lemma returned_non_response_code : forall s r methods m, handled s r methods -> r_outcome r = Return (VMsg m) ->
+  is_response (final_code r m) = false ->
+  final_message (Some s) r = Some bare_500.
+Proof.
+  intros s r methods m H Ho Hc. unfold final_message. rewrite (handled_render _ _ _ H).
+  destruct H as (_ & H2 & H3). unfold render. rewrite H2, H3, Ho. unfold checked. cbn [fill_defaults m_code negb].
+  unfold final_code in Hc. rewrite Hc. reflexivity.
 Qed.
 Lemma fill_defaults_spec : forall r m,
   m_code (fill_defaults r m) = Some (match m_code m with Some c => c | None => default_code (r_code r) end) /\
@@ -65,7 +81,8 @@ Lemma returned_noresponse_sentinel : forall s r methods, handled s r methods -> 
   final_message (Some s) r = Some {| m_code := Some (default_code (r_code r)); m_payload := []; m_cf := None; m_nr := Some 26; m_obs := None |}.
 Proof.
   intros s r methods H Ho. unfold final_message. rewrite (handled_render _ _ _ H).
-  destruct H as (_ & H2 & H3). unfold render. rewrite H2, H3, Ho. reflexivity.
+  destruct H as (_ & H2 & H3). unfold render. rewrite H2, H3, Ho. unfold checked. cbn [fill_defaults m_code negb].
+  rewrite default_code_is_response. reflexivity.
 Qed.
 
 (* a raised exception: what error_to_message makes of it *)
